@@ -11,7 +11,7 @@
    sibling), (d) address arithmetic: the nested content starts at an offset from the parent's start that is a multiple of
    the largest alignment any element inside needs, and the parent reports at least that alignment.
 """
-import json
+import json, os
 from . import lib
 from . import builder_util as bu
 from .builder_engine import Engine
@@ -19,6 +19,8 @@ from .builder_engine import Engine
 
 def run(ctx):
     ok = ctx.check_theorems()
+    if os.path.exists(os.path.join(lib.COQ, 'Properties', 'Properties_C15b.v')):     # nested_self_contained / nested_aligned, plain nesting at any depth
+        ok = ctx.check_theorems(prop_module='Properties_C15b') and ok
     if not ok:
         ctx.broken_obligation('Properties_C15.vo', getattr(ctx, 'broken', {}))
     E = Engine(ctx, with_gen_api=True)
@@ -35,6 +37,9 @@ def run(ctx):
             md = rng.choice([2, 3, 3, 4]) if not ctx.thorough else rng.choice([2, 3, 4, 6, 8])
             c = E.make_case(rng, s, maxdepth=md, size=rng.choice([0.3, 1.0]), klass='nested')
             cases.append(c)
+        # flatcc_builder_embed_buffer: existing bytes embedded inside a nested level with their alignment or a larger one (8..256)
+        for i in range(n // 2):
+            cases.append(E.make_case(rng, s, maxdepth=rng.choice([3, 4]), size=rng.choice([0.3, 1.0]), klass='nested-embed', embed_bias=0.7))
         # nested struct roots through the GENERATED <field>_create_as_root (create_buffer with is_nested, no start_buffer)
         for i in range(n // 3):
             cases.append(E.make_case(rng, s, maxdepth=rng.choice([2, 3]), size=rng.choice([0.3, 1.0]), klass='nested-generated-api', gen_api=True))
@@ -42,7 +47,9 @@ def run(ctx):
     ver_items, ver_meta, dump_items, dec_lines, dec_meta = [], [], [], [], []
     nnested = 0
     for c in cases:
-        ctx.count(c.h, klass='build:nested')
+        ctx.count(c.h, klass='build:' + c.klass)
+        for k, v in c.gen.kinds.items():
+            g = ctx.cov['generator_histogram']; g['style:' + k] = g.get('style:' + k, 0) + v
         if c.hrep.startswith('CRASH'):
             ctx.violation('crash:' + E.crash_key(c.hrep), 'the builder crashes (sanitizer) while building nested buffers: ' + c.hrep[:400],
                           {'harness_line': c.h, 'model_line': c.m, 'schema': c.schema.name}); continue
